@@ -2,6 +2,7 @@ package c12
 
 import (
 	"bytes"
+	"encoding/binary"
 	"crypto/hmac"
 	"crypto/sha256"
 	"encoding/hex"
@@ -52,6 +53,18 @@ type Cross struct {
 	Big2     bool
 	Tsig     bool // server has a TSIG secret, every request and reply is signed; TsigStatus must be nil for every request
 	Salt     uint32
+	// Round 8. Requests and replies carry several names whose suffixes are shared ACROSS clients
+	// (z0/z1/z2.shared.test.); Compress writes them with Msg.Compress = true. FailMod > 0: the handler of
+	// request (cl, q) with (cl+q) % FailMod == 0 first tries to write a reply that cannot be encoded
+	// (FailKinds, cyclic by cl*7+q; it names hosts of OTHER clients at other offsets), sees the error of
+	// WriteMsg and then writes the valid reply - the usual fallback of a handler. ClientFail: clients do
+	// the same with their requests through Conn.WriteMsg. FailUnsigned: in TSIG rounds the unencodable
+	// reply carries no TSIG stub (it fails in Msg.Pack instead of TsigGenerate).
+	Compress     bool     `json:",omitempty"`
+	FailMod      int      `json:",omitempty"`
+	FailKinds    []string `json:",omitempty"`
+	ClientFail   bool     `json:",omitempty"`
+	FailUnsigned bool     `json:",omitempty"`
 }
 
 func genCross(transports []string) func(t *rapid.T) Cross {
@@ -98,6 +111,20 @@ func genCross(transports []string) func(t *rapid.T) Cross {
 		for i := 0; i < n; i++ {
 			c.SleepUs = append(c.SleepUs, rapid.SampledFrom([]int{0, 0, 50, 200, 500, 1000, 2000}).Draw(t, "sleep"))
 		}
+		c.Compress = rapid.IntRange(0, 9).Draw(t, "compress") < 7
+		if rapid.IntRange(0, 9).Draw(t, "failFirst") < 5 {
+			c.FailMod = rapid.SampledFrom([]int{1, 2, 2, 3, 5}).Draw(t, "failMod")
+			c.ClientFail = rapid.IntRange(0, 2).Draw(t, "clientFail") == 0
+			c.FailUnsigned = rapid.Bool().Draw(t, "failUnsigned")
+			nk := rapid.IntRange(1, 4).Draw(t, "nFailKinds")
+			for i := 0; i < nk; i++ {
+				c.FailKinds = append(c.FailKinds, rapid.SampledFrom(failKinds).Draw(t, "failKind"))
+			}
+			if c.Tsig && !c.FailUnsigned && pbt.Known(knownFailedSignedWrite) {
+				pbt.Excluded(knownFailedSignedWrite)
+				c.FailUnsigned = true
+			}
+		}
 		return c
 	}
 }
@@ -107,6 +134,12 @@ func genCross(transports []string) func(t *rapid.T) Cross {
 // probe reproduces, second rounds behind a GROWN datagram buffer keep their requests within the old
 // buffer size (Big2 is cleared); everything else about restarts stays generated.
 const knownRestartPool = "restart-larger-udpsize-stale-pool"
+
+// knownFailedSignedWrite is the id of the finding "a signed reply that fails to encode wipes the
+// request MAC of its response writer, so the signed reply the handler writes next does not verify at
+// its client" (KNOWN_FINDINGS.txt). While it is listed and its probe reproduces, the unencodable
+// replies of TSIG rounds carry no TSIG stub (FailUnsigned); everything else stays generated.
+const knownFailedSignedWrite = "failed-signed-write-wipes-request-mac"
 
 // bufSize is the receive buffer size of the datagram server in round ph (0 or 1).
 func (c Cross) bufSize(ph int) int {
@@ -249,11 +282,14 @@ func (s *crossState) request(cl, q, pad int) *dns.Msg {
 	} else {
 		m.Id = uint16(cl*251 + q*7 + int(c.Salt&0xff))
 	}
+	m.Compress = c.Compress
 	txt := []string{tok}
 	for ; pad > 0; pad -= min(pad, 255) {
 		txt = append(txt, strings.Repeat("p", min(pad, 255)))
 	}
-	m.Extra = append(m.Extra, &dns.TXT{Hdr: dns.RR_Header{Name: "tok.", Rrtype: dns.TypeTXT, Class: dns.ClassINET}, Txt: txt})
+	nsOwner, nsTarget, txtOwner := requestFacts(cl, q)
+	m.Ns = append(m.Ns, &dns.NS{Hdr: dns.RR_Header{Name: nsOwner, Rrtype: dns.TypeNS, Class: dns.ClassINET}, Ns: nsTarget})
+	m.Extra = append(m.Extra, &dns.TXT{Hdr: dns.RR_Header{Name: txtOwner, Rrtype: dns.TypeTXT, Class: dns.ClassINET}, Txt: txt})
 	o := &dns.OPT{Hdr: dns.RR_Header{Name: ".", Rrtype: dns.TypeOPT}}
 	o.SetUDPSize(1232)
 	o.Option = append(o.Option, &dns.EDNS0_LOCAL{Code: tokOpt, Data: []byte(tok)})
@@ -302,6 +338,9 @@ type crossState struct {
 	asyncPending atomic.Int32   // late repliers still at work (an atomic, not a WaitGroup: Add would race with Wait across a real socket)
 	lateReplies  atomic.Int32
 	tsigOK       atomic.Int32
+	failedReply  atomic.Int32 // replies that could not be encoded, each followed by the valid one
+	failedReq    atomic.Int32 // the same for requests
+	wireChecked  atomic.Int32 // replies compared octet-wise through the harness's own decoder
 	alien        atomic.Int32
 	calls        atomic.Int32
 	active       atomic.Int32
@@ -368,6 +407,22 @@ func (s *crossState) handler(w dns.ResponseWriter, req *dns.Msg) {
 	// the response writer belongs to this request: it names this client and this server
 	var cl, q int
 	fmt.Sscanf(qn, "c%dq%d", &cl, &q)
+	// the names of the request are those its client wrote (they share suffixes with other clients' requests)
+	nsOwner, nsTarget, txtOwner := requestFacts(cl, q)
+	gotNs, gotTxtOwner := "<missing>", "<missing>"
+	if len(req.Ns) == 1 {
+		if x, isNS := req.Ns[0].(*dns.NS); isNS {
+			gotNs = x.Hdr.Name + " NS " + x.Ns
+		}
+	}
+	if len(req.Extra) > 0 {
+		gotTxtOwner = req.Extra[0].Header().Name
+	}
+	if gotNs != nsOwner+" NS "+nsTarget || gotTxtOwner != txtOwner {
+		s.fail("handler of token %q saw names its client did not send: authority %q (sent %q), owner of the TXT record %q (sent %q)", qn, gotNs, nsOwner+" NS "+nsTarget, gotTxtOwner, txtOwner)
+		s.active.Add(-1)
+		return
+	}
 	s.mu.Lock()
 	wantRemote, srvLocal := s.addrs[cl], s.srvLocal
 	s.mu.Unlock()
@@ -405,13 +460,27 @@ func (s *crossState) handler(w dns.ResponseWriter, req *dns.Msg) {
 			s.fail("response writer of token %q: TsigStatus() turned into %v before the reply was written", qn, w.TsigStatus())
 			return
 		}
+		if s.c.handlerFails(cl, q) {
+			// first a reply that cannot be encoded; the handler sees the error and falls back to the valid one
+			bad := new(dns.Msg)
+			bad.SetReply(req)
+			bad.Compress = s.c.Compress
+			fillReply(bad, cl+1, q+1, qn)
+			bad.Answer, bad.Ns = nil, nil
+			makeUnencodable(bad, s.c.failKind(cl, q), cl, q)
+			if s.c.Tsig && !s.c.FailUnsigned {
+				bad.SetTsig(tsigKeyName, dns.HmacSHA256, 300, time.Now().Unix())
+			}
+			if err := w.WriteMsg(bad); err == nil {
+				s.fail("handler of token %q: WriteMsg accepted a reply that cannot be encoded (%s)", qn, s.c.failKind(cl, q))
+				return
+			}
+			s.failedReply.Add(1)
+		}
 		m := new(dns.Msg)
 		m.SetReply(req)
-		m.Answer = []dns.RR{&dns.TXT{Hdr: dns.RR_Header{Name: req.Question[0].Name, Rrtype: dns.TypeTXT, Class: dns.ClassINET, Ttl: 1}, Txt: []string{"re:" + qn}}}
-		o := &dns.OPT{Hdr: dns.RR_Header{Name: ".", Rrtype: dns.TypeOPT}}
-		o.SetUDPSize(1232)
-		o.Option = append(o.Option, &dns.EDNS0_LOCAL{Code: tokOpt, Data: []byte("re:" + qn)})
-		m.Extra = []dns.RR{o}
+		m.Compress = s.c.Compress
+		fillReply(m, cl, q, qn)
 		if s.c.Tsig {
 			m.SetTsig(tsigKeyName, dns.HmacSHA256, 300, time.Now().Unix())
 		}
@@ -464,6 +533,25 @@ func checkCross(c Cross) error {
 	}
 	if s.lateReplies.Load() > 0 {
 		cl = append(cl, "replies-after-ServeDNS-returned")
+	}
+	cl = append(cl, fmt.Sprintf("compress=%v", c.Compress))
+	if s.failedReply.Load() > 0 {
+		cl = append(cl, "unencodable-reply-then-valid-reply")
+		if c.Compress {
+			cl = append(cl, "unencodable-reply-then-valid-reply,compressed")
+		}
+		if c.Tsig && !c.FailUnsigned {
+			cl = append(cl, "unencodable-signed-reply-then-valid-signed-reply")
+		}
+		for _, k := range c.FailKinds {
+			cl = append(cl, "unencodable="+k)
+		}
+	}
+	if s.failedReq.Load() > 0 {
+		cl = append(cl, "unencodable-request-then-valid-request")
+	}
+	if s.wireChecked.Load() > 0 {
+		cl = append(cl, "replies-decoded-by-the-harness")
 	}
 	inflight := s.maxAct.Load() >= 2
 	if inflight {
@@ -671,6 +759,10 @@ func (s *crossState) round(srv *dns.Server, ph, pad int) (lost int, err error) {
 			s.mu.Lock()
 			s.addrs[cl] = conn.LocalAddr().String()
 			s.mu.Unlock()
+			var tee *teeConn
+			if cl%2 == 1 {
+				conn, tee = newTee(conn) // this client's replies are also read off the wire by the harness
+			}
 			co := &dns.Conn{Conn: conn, UDPSize: 1232}
 			if c.Tsig {
 				if c.TsigProv {
@@ -688,6 +780,25 @@ func (s *crossState) round(srv *dns.Server, ph, pad int) (lost int, err error) {
 					tmo = 2 * time.Second // a real datagram may be dropped by the kernel; that is not a violation
 				}
 				conn.SetDeadline(time.Now().Add(tmo))
+				if c.clientFails(cl, q) {
+					bad := s.request(cl+1, q+1, 0)
+					if c.Tsig {
+						bad.Extra = bad.Extra[:len(bad.Extra)-1] // the TSIG stub goes back on at the end
+					}
+					bad.Ns = nil
+					makeUnencodable(bad, c.failKind(cl, q), cl, q)
+					if c.Tsig {
+						bad.SetTsig(tsigKeyName, dns.HmacSHA256, 300, time.Now().Unix())
+					}
+					if e := co.WriteMsg(bad); e == nil {
+						s.fail("%sclient %d request %d: Conn.WriteMsg accepted a request that cannot be encoded (%s)", when, cl, q, c.failKind(cl, q))
+						return
+					}
+					s.failedReq.Add(1)
+				}
+				if tee != nil {
+					tee.got = nil
+				}
 				if e := co.WriteMsg(m); e != nil {
 					s.fail("%sclient %d request %d: write failed: %v", when, cl, q, e)
 					return
@@ -699,6 +810,9 @@ func (s *crossState) round(srv *dns.Server, ph, pad int) (lost int, err error) {
 						break
 					}
 					s.alien.Add(1) // a datagram of another process reached this client's port
+					if tee != nil {
+						tee.got = nil
+					}
 					rep, e = co.ReadMsg()
 				}
 				if e != nil {
@@ -712,7 +826,7 @@ func (s *crossState) round(srv *dns.Server, ph, pad int) (lost int, err error) {
 				}
 				qn, _, opt, _ := tokens(rep)
 				ans := ""
-				if len(rep.Answer) == 1 {
+				if len(rep.Answer) >= 1 {
 					if t, ok := rep.Answer[0].(*dns.TXT); ok && len(t.Txt) == 1 {
 						ans = t.Txt[0]
 					}
@@ -720,6 +834,34 @@ func (s *crossState) round(srv *dns.Server, ph, pad int) (lost int, err error) {
 				if rep.Id != m.Id || rep.Rcode != dns.RcodeSuccess || qn != tok || ans != "re:"+tok || opt != "re:"+tok {
 					s.fail("%sclient %d request %d (token %s, ID %d, %d octets with %d octets of padding; the server's receive buffer is %d octets) received a reply that is not its own: ID %d rcode %d qname token %q answer %q OPT %q", when, cl, q, tok, m.Id, m.Len(), pad, c.bufSize(ph), rep.Id, rep.Rcode, qn, ans, opt)
 					return
+				}
+				// every name and value of the reply is what this request's handler wrote, as the
+				// library decoded it ...
+				want := replyFacts(cl, q, tok)
+				if d := diffFacts(libFacts(rep), want); d != "" {
+					s.fail("%sclient %d request %d (token %s; compress=%v, unencodable reply first: %v): the reply differs from what its handler wrote: %s", when, cl, q, tok, c.Compress, c.handlerFails(cl, q), d)
+					return
+				}
+				// ... and as the harness reads it off the octets that arrived
+				if tee != nil {
+					raw, e := tee.message(s.datagram())
+					var got []string
+					if e == nil {
+						got, e = wireFacts(raw)
+					}
+					if e != nil {
+						s.fail("%sclient %d request %d (token %s; compress=%v, unencodable reply first: %v): the reply on the wire cannot be read: %v (%s)", when, cl, q, tok, c.Compress, c.handlerFails(cl, q), e, hexHead(raw))
+						return
+					}
+					if len(raw) < 2 || binary.BigEndian.Uint16(raw) != m.Id {
+						s.fail("%sclient %d request %d (token %s): the reply on the wire carries ID %d, the request %d", when, cl, q, tok, binary.BigEndian.Uint16(raw), m.Id)
+						return
+					}
+					if d := diffFacts(got, want); d != "" {
+						s.fail("%sclient %d request %d (token %s; compress=%v, unencodable reply first: %v): the octets that arrived say something else than the handler wrote: %s", when, cl, q, tok, c.Compress, c.handlerFails(cl, q), d)
+						return
+					}
+					s.wireChecked.Add(1)
 				}
 			}
 		}()
@@ -773,8 +915,21 @@ func probeRestartPool() error {
 	return nil
 }
 
+// probeFailedSignedWrite: a TSIG server whose handler first writes a signed reply that cannot be
+// encoded (a 300-octet TXT character-string), sees the error of WriteMsg and then writes the valid
+// signed reply. Two clients, one request each, in-memory datagram transport; deterministic (the
+// state is the response writer's own). While the defect is present both clients' ReadMsg report
+// "bad signature".
+func probeFailedSignedWrite() error {
+	c := Cross{Transport: "memPacket", Clients: 2, Reqs: 1, SleepUs: []int{0}, Tsig: true, FailMod: 1, FailKinds: []string{"txt300"}}
+	s := &crossState{c: c, seen: map[string]int{}, addrs: map[int]string{}, nonce: fmt.Sprintf("p%dr%d", os.Getpid(), crossSeq.Add(1))}
+	_, err := s.run()
+	return err
+}
+
 func init() {
 	pbt.Probe(knownRestartPool, probeRestartPool)
+	pbt.Probe(knownFailedSignedWrite, probeFailedSignedWrite)
 	pbt.Register(pbt.Sub[Cross]{Name: "crosstalk-mem", Weight: 0.1, Gen: genCross([]string{"memPacket", "memPacket", "memTCP"}), Check: checkCross})
 	pbt.Register(pbt.Sub[Cross]{Name: "crosstalk-real", Weight: 0.1, Gen: genCross([]string{"realUDP", "realUDPwild", "realUDPwild", "realTCP"}), Check: checkCross})
 }
